@@ -122,6 +122,28 @@ type ssBuildObs struct {
 	Parse    ssParse `json:"parse"` // GetProgramInfo(built bytes)
 	Panic    string  `json:"panic,omitempty"`
 	ArgOrder []int   `json:"argOrder"` // the caller's key slice after the calls (the library sorts in place)
+	Changed  []int   `json:"changed,omitempty"` // earlier builds whose RETAINED script bytes differ now (spec: HeldStable)
+}
+
+// scripts returned by earlier builds, kept exactly as returned (not copied), with a private copy of what they were
+type ssHeld struct {
+	i    int
+	live []byte
+	was  []byte
+}
+
+var ssHeldScripts []ssHeld
+
+const ssHeldWindow = 96
+
+// ssCheckHeld: every retained script must still be what the builder returned (HeldStable)
+func ssCheckHeld() (changed []int) {
+	for _, h := range ssHeldScripts {
+		if !bytes.Equal(h.live, h.was) {
+			changed = append(changed, h.i)
+		}
+	}
+	return
 }
 
 func (w *sgWorld) buildObs(i int, b *ssBuild) (o *ssBuildObs) {
@@ -161,6 +183,20 @@ func (w *sgWorld) buildObs(i int, b *ssBuild) (o *ssBuildObs) {
 			o.ScriptEq = bytes.Equal(prog, w.realize(b.Script))
 		}
 		o.Parse = w.parse(prog)
+	}
+	// the history part: what earlier builds returned must not have changed by this build (or anything since)
+	o.Changed = ssCheckHeld()
+	if len(o.Changed) > 0 {
+		// report each corruption once: re-base the retained copies
+		for k := range ssHeldScripts {
+			ssHeldScripts[k].was = append([]byte{}, ssHeldScripts[k].live...)
+		}
+	}
+	if o.Ok {
+		ssHeldScripts = append(ssHeldScripts, ssHeld{i: i, live: prog, was: append([]byte{}, prog...)})
+		if len(ssHeldScripts) > ssHeldWindow {
+			ssHeldScripts = ssHeldScripts[1:]
+		}
 	}
 	return o
 }
